@@ -12,6 +12,11 @@ from pv.check import run_check, ViewCheck
 from checks import c01, c02, c07, c09, c10, c14
 
 
+def db_repo(db):
+    from pv import pipeline
+    return pipeline.REPO
+
+
 def body(chk, db, cfgname):
     r1 = chk.rule("C08-R1", "every partition is a partition: each Fock state classified exactly once, (block, position) addresses round-trip, integrals of motion accepted only after they commute with H and all n_i", "F1 pairing/dominance (rules C07-R1..R3)", 9)
     r2 = chk.rule("C08-R2", "operator bimaps are complete for every partition: one part per right block with an image block, no filter that depends on which blocks coincide; c, c+ and c+c built alike; annihilation part is the adjoint for every block pair", "F4 siblings + F1 (rules C07-R5, C10-R2, C10-R4)", 8)
@@ -23,6 +28,41 @@ def body(chk, db, cfgname):
     c14.body(ViewCheck(chk, {"C14-R2": r3}), db, cfgname)
     c02.body(ViewCheck(chk, {"C02-R3": r3, "C02-R4": r3}), db, cfgname)
     c09.body(ViewCheck(chk, {"C09-R4": r3, "C09-R5": r4}), db, cfgname)
+    # ------------------------------------------------------------------ R5: the numerical kernels never look at *which* block they are in
+    r5 = chk.rule("C08-R5", "partition transparency of the kernels: inside the per-block computations the identity of a block (BlockNumber / QuantumNumbers) is used only to fetch data, never compared or branched on, and no single Fock state stands for a whole block", "F4 effects / who-may-compare", 22)
+    KERNELS = ("Pomerol::GreensFunctionPart", "Pomerol::SusceptibilityPart", "Pomerol::TwoParticleGFPart", "Pomerol::DensityMatrixPart", "Pomerol::FieldOperatorPart",
+               "Pomerol::HamiltonianPart", "Pomerol::CreationOperatorPart", "Pomerol::AnnihilationOperatorPart", "Pomerol::QuadraticOperatorPart")
+    extra = [x for x in db.fns.values() if x.qn in ("Pomerol::EnsembleAverage::compute",)]
+    from pv.expr import Ctx
+    for f in sorted([x for x in db.fns.values() if (x.rec in KERNELS or x in extra) and x.body is not None and x.body >= 0 and x.file.startswith(db_repo(db))], key=lambda x: (x.file, x.line)):
+        ncmp = nfs = 0
+        bad = None
+        ctx = None
+        for j, n in f.walk(f.body):
+            ops = []
+            if n["k"] == "bin" and n["op"] in ("==", "!=", "<", ">", "<=", ">="):
+                ops = [n["l"], n["r"]]
+            elif n["k"] == "call" and n.get("ck") == "op" and n.get("op") in ("==", "!=", "<", ">", "<=", ">="):
+                ops = n["args"]
+            if ops:
+                ncmp += 1
+                for a in ops:
+                    t = f.nodes[a].get("t", "")
+                    if "BlockNumber" in t or "QuantumNumbers" in t:
+                        bad = bad or (j, "compares block identities (%s): the result of the computation then depends on how the states were partitioned, e.g. terms between degenerate states are treated differently when the partition puts them into different blocks" % f.s(j)[:70])
+            if n["k"] == "call" and n.get("ck") == "method" and (n.get("cname") or "").endswith("StatesClassification::getFockState") and len(n["args"]) == 2:
+                nfs += 1
+                ctx = ctx or Ctx(f, db)
+                ik = ctx.key(n["args"][1])
+                if ik[0] == "lit" or (ik[0] == "cast" and ik[2][0] == "lit"):
+                    bad = bad or (j, "reads Fock state number %s of the block as a representative of the whole block (%s): valid only if the partition makes that property constant inside a block (it does not when symmetries are ignored or N is not among the integrals of motion)" % (ik[-1][-1] if ik[0] == "cast" else ik[1], f.s(j)[:60]))
+        if ncmp == 0 and nfs == 0:
+            continue
+        site = "%s/%d:block-identity" % (f.qn, len(f.params))
+        if bad:
+            r5.bad(site, f.loc(bad[0]), bad[1], cfgname)
+        else:
+            r5.ok(site, f.loc(), "%d comparisons, none on a block identity; %d Fock-state reads, all at a running position" % (ncmp, nfs), cfgname)
     chk.undecided.append("agreement of the computed spectrum, averages, G, chi and susceptibilities between two partitions to numerical precision (relational, value level); that an accepted non-linear integral of motion really block-diagonalises H")
 
 
